@@ -178,6 +178,64 @@ fn run_reconfigured(blamed_other: bool) -> (Value, Vec<(String, String)>) {
     (case, fails)
 }
 
+/// The blamed thread is NOT the first entry of the kernel's thread list and a thread that precedes it
+/// is dropped during suspension (attach refused; or a null-stack-pointer helper that is skipped):
+/// everything the record says about the blamed thread must still be about the blamed thread.
+/// how: 1 = attach(t1) -> EPERM, 2 = attach(main) -> EPERM, 3 = a null-sp spin thread created first
+fn run_dropped_before(how: u8, with_ctx: bool, regfile: usize) -> (Value, Vec<(String, String)>, bool) {
+    use crate::puppet::{Kind, Puppet, RSP};
+    let case = json!({"dropped_before": how, "ctx": with_ctx, "regfile": regfile});
+    let mut p = Puppet::spawn();
+    if how == 3 {
+        let t = p.mkthread(Kind::Spin);
+        p.set_gpr(t, RSP, 0);
+        p.start(t);
+    }
+    p.add_thread(Kind::Block);
+    p.add_thread(Kind::Block);
+    p.add_thread(Kind::Block);
+    p.quiesce();
+    let mut b = crate::shapes::Built { p, pattern_addrs: vec![], file_addrs: vec![] };
+    let env = env_of(&mut b);
+    let blamed_tid = b.p.threads.last().unwrap().tid;
+    let devs = devs_for(regfile, env.main_stack.1, env.text.0);
+    let mut o = DumpOpts { blamed: Some(blamed_tid), ..Default::default() };
+    let (signo, code, addr) = (7u32, 0x4321i32, 0x7eee_beef_c000u64);
+    if with_ctx {
+        o.crash = Some(CrashSpec { tid: blamed_tid, signo, code, addr, devs: devs.clone() });
+    }
+    let plan: Vec<(String, crate::env::Alt)> = match how {
+        1 => vec![("attach:t1".into(), crate::env::Alt::Errno(libc::EPERM))],
+        2 => vec![("attach:t0".into(), crate::env::Alt::Errno(libc::EPERM))],
+        _ => vec![],
+    };
+    let out = crate::envrun::env_dump(&b.p, &crate::envrun::EnvSpec { opts: o, plan, ..Default::default() }, std::collections::HashMap::new(), None);
+    let mut fails = Vec::new();
+    match out.result {
+        DumpResult::Ok(bytes) => {
+            fails.extend(judge(&bytes, blamed_tid, true, if with_ctx { Some((signo, code, addr, devs)) } else { None }));
+            // and the entries of the OTHER listed threads must not carry the supplied context
+            if with_ctx {
+                let d = Dump::parse(&bytes);
+                let want = expected_fields(&vals_for(&devs_for(regfile, env.main_stack.1, env.text.0)));
+                for t in d.threads.iter().filter(|t| t.tid != blamed_tid as u32) {
+                    if let Some(cb) = d.loc_bytes(&bytes, &t.context) {
+                        if cb.len() == off::SIZE && want.iter().all(|(o, w, _)| cb[*o..*o + w.len()] == w[..]) {
+                            fails.push(("crash-context-on-wrong-thread".into(), format!("thread {} (not the blamed thread {blamed_tid}) carries the supplied crash context", t.tid)));
+                        }
+                    }
+                }
+            }
+            (case, fails, true)
+        }
+        DumpResult::Err(e) => (json!({"case": case, "dump_error": e}), fails, false),
+        DumpResult::Panic(m) => {
+            fails.push(("panic".into(), m));
+            (case, fails, false)
+        }
+    }
+}
+
 pub fn run(ctx: &Ctx, rep: &mut Report) {
     let mut cases = Vec::new();
     for n in [1usize, 3] {
@@ -216,10 +274,36 @@ pub fn run(ctx: &Ctx, rep: &mut Report) {
             rep.violation(&format!("dump/{k}"), &m, case.clone());
         }
     }
-    rep.set("end_to_end", json!({"cases": cases.len(), "dumps_succeeded": ok, "reconfigured_writer_histories": 2}));
+    let mut dropped: Vec<(u8, bool, usize)> = Vec::new();
+    for how in 1..=3u8 {
+        for with_ctx in [true, false] {
+            for regfile in if with_ctx && ctx.tier.is_thorough() { vec![0usize, 1, 7] } else { vec![0usize] } {
+                dropped.push((how, with_ctx, regfile));
+            }
+        }
+    }
+    let dres = par_map(&dropped, |_, (h, c, r)| run_dropped_before(*h, *c, *r));
+    for (case, fails, succeeded) in dres {
+        rep.evaluations += 1;
+        if succeeded {
+            rep.nontrivial += 1;
+        }
+        for (k, m) in fails {
+            rep.violation(&format!("dump/dropped-before/{k}"), &m, case.clone());
+        }
+    }
+    rep.set("end_to_end", json!({"cases": cases.len(), "dumps_succeeded": ok, "reconfigured_writer_histories": 2, "blamed_thread_behind_a_dropped_thread": dropped.len()}));
 }
 
 pub fn replay(case: &Value, rep: &mut Report) {
+    if let Some(how) = case.get("dropped_before").and_then(|h| h.as_u64()) {
+        let (c, fails, _) = run_dropped_before(how as u8, case["ctx"].as_bool().unwrap_or(false), case["regfile"].as_u64().unwrap_or(0) as usize);
+        rep.evaluations += 1;
+        for (k, m) in fails {
+            rep.violation(&format!("dump/dropped-before/{k}"), &m, c.clone());
+        }
+        return;
+    }
     if case.get("reconfigured").is_some() {
         let (c, fails) = run_reconfigured(case["blamed_other"].as_bool().unwrap_or(false));
         rep.evaluations += 1;
